@@ -59,12 +59,11 @@ theorem arrive_l138 {sh sh' : Shared} {t : Tid} {it it' : Iter}
     · split at h
       · simp only [Option.some.injEq, Prod.mk.injEq] at h
         obtain ⟨_, rfl⟩ := h
-        simp [crashWith] at hpc
-      · unfold step138ok at h
-        split at h <;> (
+        simp at hpc
+      · split at h <;> (
           simp only [Option.some.injEq, Prod.mk.injEq] at h
           obtain ⟨_, rfl⟩ := h
-          simp at hpc)
+          simp [raiseTo] at hpc)
   · cases h
 
 
